@@ -25,6 +25,19 @@ from .term import RF, OutsideFragment
 NATIVE_TOL = 1e-6
 
 
+def kernel_tol_mask(cond):
+    """the documented guard of the vortex kernels: the contribution of a segment is dropped when |den| <= 1e-10 (constant
+    threshold 1e-10 on den = |r1||r2| + r1.r2, a length squared) and nothing else"""
+    if not isinstance(cond, S.SymBool) or cond.op != '>':
+        return False
+    p = cond.val.p
+    if p.get(S.ONE) != Fraction(-1, 10 ** 10) or len(p) != 2:
+        return False
+    (m, c), = [(m, c) for m, c in p.items() if m != S.ONE]
+    # |den| is a square root, possibly times positive scale factors of the contract (length scaling by k = c^2)
+    return c > 0 and any(S.A.kind[a] == 'rad' for a, e in m) and all(S.A.kind[a] in ('rad', 'var') and (S.A.kind[a] == 'rad' or e % 2 == 0) for a, e in m)
+
+
 def tiny_load_mask(cond):
     """the documented exemption of CreateRHS: the mask |x| < 1e-6 with the constant threshold 1e-6 and nothing else"""
     if not isinstance(cond, S.SymBool) or cond.op != '>':
